@@ -8,7 +8,10 @@ use serde::Serialize;
 use std::collections::HashMap;
 use std::fmt;
 use std::path::{Path, PathBuf};
+#[cfg(not(feature = "breard_r_acmed_verif"))]
 use tokio::fs::{File, OpenOptions};
+#[cfg(feature = "breard_r_acmed_verif")]
+use crate::verif::fs::{File, OpenOptions};
 use tokio::io::{AsyncReadExt, AsyncWriteExt};
 
 #[derive(Clone, Debug)]
